@@ -25,6 +25,7 @@ static size_t live_count, live_bytes, peak_bytes;
 static long op_count, fail_k = -1, fail_k2 = -1, bad_free, total_moves, budget = -1, budget_refusals;
 static size_t budget_worst;
 static int fail_sticky, fired, cur_op, always_move;
+static int fill_on; static unsigned char fill_byte;
 static uintptr_t fault_site;
 extern char __executable_start;
 
@@ -103,7 +104,7 @@ void *__wrap_malloc(size_t sz) {
     if(refuse(sz, __builtin_return_address(0))) return 0;
     void *p = __real_malloc(sz);
     cur_ra = (uintptr_t)__builtin_return_address(0) - (uintptr_t)&__executable_start;
-    if(p) tab_add(p, sz);
+    if(p) { tab_add(p, sz); if(fill_on) memset(p, fill_byte, sz); }
     return p;
 }
 
@@ -135,15 +136,16 @@ void *__wrap_realloc(void *old, size_t sz) {
     if(refuse(sz, __builtin_return_address(0))) return 0;
     if(!old) {
         void *p = __real_malloc(sz);
-        if(p) tab_add(p, sz);
+        if(p) { tab_add(p, sz); if(fill_on) memset(p, fill_byte, sz); }
         return p;
     }
     size_t osz = e->sz;
     int op = e->op;
     void *np;
-    if(always_move) {
+    if(always_move || fill_on) {
         np = __real_malloc(sz);
         if(!np) return 0;
+        if(fill_on) memset(np, fill_byte, sz);
         memcpy(np, old, osz < sz ? osz : sz);
         __real_free(old);
         total_moves++;
@@ -182,6 +184,7 @@ long sim_alloc_op_count(void) { return op_count; }
 int sim_alloc_fault_fired(void) { return fired; }
 uintptr_t sim_alloc_fault_site(void) { return fault_site; }
 void sim_alloc_always_move(int on) { always_move = on; }
+void sim_alloc_fill(int on, unsigned char byte) { fill_on = on; fill_byte = byte; }
 void sim_alloc_set_budget(long l) { budget = l; }
 long sim_alloc_budget_refusals(void) { return budget_refusals; }
 size_t sim_alloc_budget_worst_request(void) { return budget_worst; }
